@@ -41,6 +41,12 @@ Section Search.
   Definition search_spec (c : coll) (q : Q) : list obj :=
     filter (fun o => hits o q) (scan_ids c).
 
+  (* TEST evaluates the predicate through expression.go testObject, which answers false for an
+     empty geometry before calling the library (the rule indexInsert applies to the index) *)
+  Definition test_hits (o : obj) (q : Q) : bool := if o_empty o then false else hits o q.
+  Definition test_spec (c : coll) (q : Q) : list obj :=
+    filter (fun o => test_hits o q) (scan_ids c).
+
   (* ---- SPARSE ----
      geoSparseInner splits the query rectangle into 4^sparse leaf rectangles with float64
      arithmetic (not modelled: leaves is a parameter) and runs geoSearch on each leaf; the
@@ -76,3 +82,29 @@ Section Search.
   Definition sparse_search (c : coll) (q : Q) (n : nat) : list obj :=
     rev (sparse_loop (c_spatial c) q (leaves (qrect q) n) [] []).
 End Search.
+
+(* ---- the quad split of geoSparseInner, as written ----
+     w := rect.Max.X - rect.Min.X ; h := rect.Max.Y - rect.Min.Y
+     quads = { (Min.X, Min.Y+h/2)-(Min.X+w/2, Max.Y),   (Min.X+w/2, Min.Y+h/2)-(Max.X, Max.Y),
+               (Min.X, Min.Y)-(Min.X+w/2, Min.Y+h/2),   (Min.X+w/2, Min.Y)-(Max.X, Min.Y+h/2) }
+   in float64 arithmetic (round to nearest even); recursion depth-first in that order. *)
+Definition two64 : f64 := binary_normalize 53 1024 Hprec64 Hmax64 mode_NE 2 0 false.
+Definition add64 (a b : f64) : f64 := Bplus mode_NE a b.
+Definition sub64 (a b : f64) : f64 := Bminus mode_NE a b.
+Definition half64 (a : f64) : f64 := Bdiv mode_NE a two64.
+
+Definition quads (r : rect64) : list rect64 :=
+  let w := sub64 (r64_maxx r) (r64_minx r) in
+  let h := sub64 (r64_maxy r) (r64_miny r) in
+  let mx := add64 (r64_minx r) (half64 w) in
+  let my := add64 (r64_miny r) (half64 h) in
+  [ R64 (r64_minx r) my mx (r64_maxy r);
+    R64 mx my (r64_maxx r) (r64_maxy r);
+    R64 (r64_minx r) (r64_miny r) mx my;
+    R64 mx (r64_miny r) (r64_maxx r) my ].
+
+Fixpoint quad_leaves (r : rect64) (n : nat) : list rect64 :=
+  match n with
+  | O => [r]
+  | S k => flat_map (fun q => quad_leaves q k) (quads r)
+  end.
